@@ -241,8 +241,13 @@ func allJournalsWithPaths(resolved *include.ResolvedJournal, currentPath string,
 		if resolved.Primary != nil && primaryPath != "" {
 			result[primaryPath] = resolved.Primary
 		}
-	} else if currentJournal != nil && currentPath != "" {
-		result[currentPath] = currentJournal
+	}
+	// the document the request came from is always searched, also when the tree does not contain it (a file that
+	// the workspace root does not include)
+	if currentJournal != nil && currentPath != "" {
+		if _, ok := result[currentPath]; !ok {
+			result[currentPath] = currentJournal
+		}
 	}
 
 	return result
